@@ -3,6 +3,7 @@ package main
 // Per-instruction translation.
 
 import (
+	"sync"
 	"fmt"
 	"go/token"
 	"go/types"
@@ -435,6 +436,7 @@ func (fr *frame) lookup(x *ssa.Lookup, st *bstate) {
 		return
 	}
 	fr.checkGuardedValue(x.X, st, false, x.Pos())
+	fr.checkHashableKey(x.Index, st, valueLabel(x.X), x.Pos())
 	vk, dk, ok := f.mapKeys(mt)
 	var okT string
 	var val Val
@@ -472,6 +474,7 @@ func (fr *frame) mapUpdate(x *ssa.MapUpdate, st *bstate) {
 	if u, ok := x.Map.(*ssa.UnOp); ok && u.Op == token.MUL {
 		fr.checkFieldContents(u.X, st, x.Pos()) // changing the contents of a private map counts as writing the field
 	}
+	fr.checkHashableKey(x.Key, st, valueLabel(x.Map), x.Pos())
 	if f.sweep["nilmap"] {
 		f.oblige(st, fmt.Sprintf("%s#write-non-nil-map:%s", fnShortName(fr.fn), valueLabel(x.Map)), "safety", f.sweepTags,
 			not(eq(m.Tm, "0")), "assignment to entry in nil map", posStr(f.e.fset, x.Pos()))
@@ -736,7 +739,50 @@ func (fr *frame) selectInstr(x *ssa.Select, st *bstate) {
 
 // recovers: the function (or the function it is inlined into) has a deferred recover().
 func (fr *frame) recovers() bool {
-	return fr.fn.Recover != nil
+	return fnRecovers(fr.fn)
+}
+
+var recoversMemo sync.Map
+
+// fnRecovers: one of the function's deferred calls runs the recover builtin (go/ssa gives every
+// function with a defer a Recover block, so that block says nothing).
+func fnRecovers(fn *ssa.Function) bool {
+	if v, ok := recoversMemo.Load(fn); ok {
+		return v.(bool)
+	}
+	callsRecover := func(g *ssa.Function) bool {
+		for _, b := range g.Blocks {
+			for _, in := range b.Instrs {
+				if c, ok := in.(ssa.CallInstruction); ok {
+					if bi, ok := c.Common().Value.(*ssa.Builtin); ok && bi.Name() == "recover" {
+						return true
+					}
+				}
+			}
+		}
+		return false
+	}
+	res := false
+	for _, b := range fn.Blocks {
+		for _, in := range b.Instrs {
+			d, ok := in.(*ssa.Defer)
+			if !ok {
+				continue
+			}
+			var g *ssa.Function
+			switch v := d.Call.Value.(type) {
+			case *ssa.Function:
+				g = v
+			case *ssa.MakeClosure:
+				g, _ = v.Fn.(*ssa.Function)
+			}
+			if g != nil && callsRecover(g) {
+				res = true
+			}
+		}
+	}
+	recoversMemo.Store(fn, res)
+	return res
 }
 
 func (fr *frame) typeAssert(x *ssa.TypeAssert, st *bstate) {
